@@ -236,7 +236,12 @@ def _ask(R, g, op):
     if q == "repr":
         return repr(g)
     if q == "export":
-        g._to_rdmol()
+        try:
+            g.to_rdmol(generate_bond_orders=False)
+        except NotImplementedError:
+            # reaction classes have no public export; the internal one is
+            # what reactant/product exports go through
+            getattr(g, "_to_rdmol", lambda: None)()
         return None
     if q == "as_dict":
         R.EXP.JSONHandler.as_dict(g)
@@ -769,6 +774,34 @@ def mutate_model(m: RefGraph, rng):
     return None
 
 
+def _unspecified_prelude(w, g):
+    """Earlier in the same process somebody handled the sketch of the same
+    molecule with undetermined configuration (same descriptors, same atom
+    orders, parity None): hashed it, compared it, exported it.  Whatever the
+    library remembers from that must not leak into later answers.  The sketch
+    is a private object; nothing here is judged."""
+    R = w.R
+    def run():
+        u = g.copy()
+        for d in list(u.atom_stereo.values()):
+            u.set_atom_stereo(type(d)(d.atoms, None))
+        for d in list(u.bond_stereo.values()):
+            u.set_bond_stereo(type(d)(d.atoms, None))
+        for fn in (lambda: hash(u), lambda: u == u, lambda: u == g,
+                   lambda: u.to_rdmol(generate_bond_orders=False)):
+            try:
+                fn()
+            except Exception:  # noqa: BLE001
+                pass
+    try:
+        R.guarded(run)
+        w.stats["prelude:unspecified-sketch"] += 1
+    except BaseException as e:  # noqa: BLE001
+        if isinstance(e, (KeyboardInterrupt, SystemExit)):
+            raise
+        w.stats["prelude:failed"] += 1
+
+
 @handler("probe_mutant")
 def probe_mutant(w, op):
     """a != mutate(a): both built fresh from models (C02 / C16)"""
@@ -801,6 +834,8 @@ def probe_mutant(w, op):
     w.stats["mutant:" + kind] += 1
     if not _built_ok(w, g2, m2r, "probe_mutant"):
         return
+    if op.get("prelude") and m.is_stereo:
+        _unspecified_prelude(w, g2)
     compare_pair(w, sl.real, m, g2, m2r, "mutant:" + kind)
     w.coherent(op["s"], {"C09"}, "probe_mutant", what="after-query")
 
